@@ -1,6 +1,6 @@
-from vf2.spec import *
-from c2.nxlib import *
-import c2.nxlib as nxlib
+from vf.spec import *
+from contracts.nxlib import *
+import contracts.nxlib as nxlib
 LName = ListT(Name); LInt = ListT(INT)
 def build(reg):
     nxlib.install(reg)
